@@ -112,7 +112,22 @@ func (_this *Session) GetIteratorForType(t reflect.Type) IteratorFunction {
 		return storedIterator.(IteratorFunction)
 	}
 
+	completed := false
+	defer func() {
+		if !completed {
+			// No iterator could be generated (unsupported type). Remove the
+			// placeholder and release anyone waiting on it so that later calls
+			// fail the same way instead of blocking forever.
+			iterator = func(context *Context, value reflect.Value) {
+				panic(fmt.Errorf("BUG: No iterator available for type %v", t))
+			}
+			_this.iteratorFuncs.Delete(t)
+			wg.Done()
+		}
+	}()
+
 	iterator = _this.getDefaultIteratorForType(t)
+	completed = true
 	wg.Done()
 	_this.iteratorFuncs.Store(t, iterator)
 	return iterator
